@@ -200,70 +200,81 @@ theorem retention_tie_drops_newest_witness :
 example : retainIds 2 [] [(0, 5), (1, 7), (2, 6), (3, 7)] = [1, 3] := by decide
 
 /-- every checkpoint id that is listed after ANY statement sequence (unrestricted: retention at any
-    count and any tie order, rollbacks, manual deletes, duplicate names, `_embedding` writes, …) has
-    its blob in the archive, and `ROLLBACK TO <that id>` is accepted whatever the listing order; it
-    loads that very checkpoint provided no listed checkpoint carries the id string as its NAME
-    (`rollback_id_shadowed_by_name_witness` shows the proviso is needed) -/
+    count and any tie order, rollbacks, manual deletes, duplicate names, names that are the id
+    string of another checkpoint, `_embedding` writes, …) has its blob in the archive, and
+    `ROLLBACK TO <that id>` is accepted whatever the listing order and loads THAT VERY checkpoint.
+    (Before /repo fff752bd this needed the proviso "no listed checkpoint is named with the id
+    string": `rollback_id_shadowed_by_name_witness`.) -/
 theorem retained_are_restorable (ops : List Op) (i : Nat) (o : List Nat) :
     alHas (run {} ops).st.cps i = true →
-    (∃ c, blobOf (run {} ops) i = some c ∧ c.id = i) ∧ (step (run {} ops) (.rollback i o)).2 = .ok ∧
-    ((∀ j, alHas (run {} ops).st.cps j = true → nameOf (run {} ops) j ≠ some i) →
-      ∃ c, loadCk (run {} ops) o i = some c ∧ c.id = i) := by
+    ∃ c, blobOf (run {} ops) i = some c ∧ c.id = i ∧ loadCk (run {} ops) o i = some c ∧
+      (step (run {} ops) (.rollback i o)).2 = .ok := by
   intro hl
   have hinv : DbInv (run {} ops) := DbInv.init.run ops
-  have hblob := hinv.blobOf_some i (hinv.cpsLt i hl)
-  -- the id itself matches, so the target resolves to some listed checkpoint, whose blob exists
-  have hres : ∃ j, resolve (run {} ops) o i = some j := by
-    obtain ⟨p, hp, hpi⟩ := List.mem_map.mp ((alHas_iff _ _).mp hl)
-    have hin := mem_ckList o _ hinv.cpsNodup p hp
-    unfold resolve
-    cases hf : (ckList o (run {} ops).st.cps).find? (ckMatches (run {} ops) i) with
-    | none =>
-      rw [List.find?_eq_none] at hf
-      have := hf p hin
-      simp [ckMatches, hpi] at this
-    | some a => exact ⟨a.1, rfl⟩
-  refine ⟨hblob, ?_, ?_⟩
-  · obtain ⟨j, hj⟩ := hres
-    obtain ⟨c, hc, _⟩ := hinv.blobOf_some j (hinv.cpsLt j (resolve_live _ o i j hj))
-    simp only [step, doRollback, loadCk, hj, hc]
-  · intro hno
-    obtain ⟨c, hc, hci⟩ := hblob
-    exact ⟨c, by simp only [loadCk, hinv.resolve_id o i hl hno, hc], hci⟩
+  obtain ⟨c, hc, hci⟩ := hinv.blobOf_some i (hinv.cpsLt i hl)
+  have hload : loadCk (run {} ops) o i = some c := by
+    simp only [loadCk, hinv.resolve_id o i hl, hc]
+  exact ⟨c, hc, hci, hload, by simp only [step, doRollback, hload]⟩
 
 /-- non-vacuity: retention at max 2 over four checkpoints (with a tie), an `_embedding` write and a
-    rollback in between; the two listed ids satisfy the hypothesis -/
+    rollback in between, the newest checkpoint NAMED with the id string of the other listed one:
+    the two listed ids satisfy the hypothesis and each loads itself -/
 example :
     let ops : List Op := [.setmax 2, .kput 2 1 1 (some 4), .ckpt 5 [] 1000, .ckpt 7 [] 1001, .gnode 0, .ckpt 7 [1] 1002,
-      .rollback 2 [], .ckpt 9 [] 1003]
+      .rollback 2 [], .ckpt 9 [] 1]
     qCkpts (run {} ops) = [1, 3] ∧ alHas (run {} ops).st.cps 3 = true ∧
-      nameOf (run {} ops) 1 = some 1001 ∧ nameOf (run {} ops) 3 = some 1003 := by decide
+      nameOf (run {} ops) 1 = some 1001 ∧ nameOf (run {} ops) 3 = some 1 ∧
+      (loadCk (run {} ops) [] 1).map (·.id) = some 1 ∧ (loadCk (run {} ops) [] 3).map (·.id) = some 3 := by
+  decide
 
-/-- `ROLLBACK TO x` (and `CheckpointManager::delete(x)`) act on the NEWEST listed checkpoint whose
-    id or name is `x`: after ANY statement sequence, for EVERY target string and EVERY listing
-    order, the checkpoint loaded is listed, its id or its name is `x`, and no listed checkpoint
-    whose id or name is `x` has a later timestamp -/
+/-- the statement the repair fff752bd makes true, for EVERY reachable database, EVERY listed id and
+    EVERY listing order: a listed checkpoint's id resolves to that checkpoint — no choice of names
+    can make a retained checkpoint unreachable -/
+theorem listed_id_resolves_to_itself (ops : List Op) (i : Nat) (o : List Nat) :
+    alHas (run {} ops).st.cps i = true → resolve (run {} ops) o i = some i :=
+  fun hl => (DbInv.init.run ops).resolve_id o i hl
+
+example :
+    let d := run {} [.kput 0 0 1 none, .ckpt 5 [] 1000, .kput 0 0 2 none, .ckpt 6 [] 0, .ckpt 6 [] 0]
+    alHas d.st.cps 0 = true ∧ nameOf d 1 = some 0 ∧ nameOf d 2 = some 0 ∧
+      resolve d [] 0 = some 0 ∧ resolve d [2, 1] 0 = some 0 := by decide
+
+/-- `ROLLBACK TO x` (and `CheckpointManager::delete(x)`) — which checkpoint is acted on, after ANY
+    statement sequence, for EVERY target string and EVERY listing order: the checkpoint loaded is
+    listed; if `x` is the id of a listed checkpoint it is THAT checkpoint; otherwise its name is `x`
+    and no listed checkpoint named `x` has a later timestamp -/
 theorem rollback_target_is_newest_match (ops : List Op) (x : Nat) (o : List Nat) (c : Ckpt) :
     loadCk (run {} ops) o x = some c →
-      alHas (run {} ops).st.cps c.id = true ∧ (c.id = x ∨ c.name = x) ∧
-      ∀ j c', alHas (run {} ops).st.cps j = true → blobOf (run {} ops) j = some c' →
-        (c'.id = x ∨ c'.name = x) → c'.ts ≤ c.ts := by
+      alHas (run {} ops).st.cps c.id = true ∧
+      (alHas (run {} ops).st.cps x = true → c.id = x) ∧
+      (alHas (run {} ops).st.cps x = false → c.name = x ∧
+        ∀ j c', alHas (run {} ops).st.cps j = true → blobOf (run {} ops) j = some c' →
+          c'.name = x → c'.ts ≤ c.ts) := by
   intro hl
   have hinv : DbInv (run {} ops) := DbInv.init.run ops
   have hr := (loadCk_mem _ o x c hl).2
   have hb : blobOf (run {} ops) c.id = some c := by
     unfold loadCk at hl; rw [hr] at hl; exact hl
-  obtain ⟨ts, hm, hmatch, hnew⟩ := resolve_some _ o x c.id hr
   have hlive := resolve_live _ o x c.id hr
-  have hts : ts = c.ts := (hinv.cpsTs _ hm c (blobOf_mem _ _ c hb).1 rfl).symm
-  refine ⟨hlive, (ckMatches_iff _ x c.id ts c hb).mp hmatch, ?_⟩
-  intro j c' hj hb' hx
-  have hid := (blobOf_mem _ j c' hb').2
-  have hmem := hinv.live_mem j hj c' hb'
-  have := hnew (j, c'.ts) (mem_ckList o _ hinv.cpsNodup _ hmem)
-    ((ckMatches_iff _ x j c'.ts c' hb').mpr (by rw [← hid]; exact hx))
-  simp only at this
-  omega
+  refine ⟨hlive, ?_, ?_⟩
+  · intro hx
+    have := hinv.resolve_id o x hx
+    rw [hr] at this
+    exact Option.some.inj this
+  · intro hx
+    obtain ⟨ts, hm, hcase⟩ := resolve_some _ o x c.id hr
+    have hts : ts = c.ts := (hinv.cpsTs _ hm c (blobOf_mem _ _ c hb).1 rfl).symm
+    rcases hcase with hid | ⟨_, hname, hnew⟩
+    · rw [hid] at hlive; rw [hlive] at hx; cases hx
+    · refine ⟨?_, ?_⟩
+      · unfold nameOf at hname; rw [hb] at hname
+        simpa using hname
+      · intro j c' hj hb' hn
+        have hmem := hinv.live_mem j hj c' hb'
+        have := hnew (j, c'.ts) (mem_ckList o _ hinv.cpsNodup _ hmem)
+          (by unfold nameOf; rw [hb']; simp only [Option.map_some, hn])
+        simp only at this
+        omega
 
 /-- non-vacuity and the consequence for duplicate names: two listed checkpoints named alike —
     the name reaches the newer one only; the older one is still reachable through its id -/
@@ -274,49 +285,85 @@ theorem rollback_name_picks_newest_witness :
     qRaw (step d (.rollback 1007 [])).1 = [(.plain 0, .raw (some 2) none)] ∧
     qRaw (step d (.rollback 0 [])).1 = [(.plain 0, .raw (some 1) none)] := by decide
 
-/-- a checkpoint whose NAME is the id string of an older listed checkpoint shadows it:
-    `ROLLBACK TO <id of c0>` is accepted and restores the OTHER checkpoint, so c0 — although
-    retained and listed — cannot be rolled back to (`find_by_id_or_name` takes the first listing
-    entry matching either field; ids are uuids, so this needs a deliberately chosen name) -/
+/-- what was wrong before /repo fff752bd (`resolveOld` / `loadCkOld` / `doRollbackOld`: ONE pass,
+    the first listing entry whose id OR name is the target): a checkpoint whose NAME is the id
+    string of an older listed checkpoint shadowed it — `ROLLBACK TO <id of c0>` was accepted and
+    restored the OTHER checkpoint, so c0, although retained and listed, could not be rolled back
+    to.  With the present two-pass resolution the same statements load and restore c0. -/
 theorem rollback_id_shadowed_by_name_witness :
     let d := run {} [.kput 0 0 1 none, .ckpt 5 [] 1000, .kput 0 0 2 none, .ckpt 6 [] 0, .kput 0 0 3 none]
-    qCkpts d = [0, 1] ∧ (loadCk d [] 0).map (·.id) = some 1 ∧
-    (step d (.rollback 0 [])).2 = .ok ∧
-    qRaw (step d (.rollback 0 [])).1 = [(.plain 0, .raw (some 2) none)] := by decide
+    qCkpts d = [0, 1] ∧
+    -- before the repair
+    resolveOld d [] 0 = some 1 ∧ (loadCkOld d [] 0).map (·.id) = some 1 ∧ (doRollbackOld d 0 []).2 = .ok ∧
+    qRaw (doRollbackOld d 0 []).1 = [(.plain 0, .raw (some 2) none)] ∧
+    -- the code as it is
+    resolve d [] 0 = some 0 ∧ (loadCk d [] 0).map (·.id) = some 0 ∧ (step d (.rollback 0 [])).2 = .ok ∧
+    qRaw (step d (.rollback 0 [])).1 = [(.plain 0, .raw (some 1) none)] := by decide
+
+/-- the repair is narrow: for EVERY database, order and target the old and the present resolution
+    agree unless the target string is both the id of a listed checkpoint and the name of a listed
+    checkpoint -/
+theorem resolution_changed_only_when_shadowed (ops : List Op) (x : Nat) (o : List Nat) :
+    (alHas (run {} ops).st.cps x = false ∨
+      ∀ j, alHas (run {} ops).st.cps j = true → nameOf (run {} ops) j ≠ some x) →
+    resolveOld (run {} ops) o x = resolve (run {} ops) o x := by
+  intro h
+  apply resolveOld_eq
+  rcases h with h | h
+  · left
+    intro b hb e
+    have hm := ckList_mem o _ b hb
+    have : alHas (run {} ops).st.cps x = true := by
+      rw [← e]; exact (alHas_iff _ _).mpr (List.mem_map_of_mem hm)
+    rw [h] at this; cases this
+  · right
+    intro b hb
+    exact h b.1 ((alHas_iff _ _).mpr (List.mem_map_of_mem (ckList_mem o _ b hb)))
+
+example :
+    let d := run {} [.ckpt 5 [] 1007, .ckpt 6 [] 1007, .ckpt 7 [] 1001]
+    alHas d.st.cps 1007 = false ∧ resolveOld d [] 1007 = some 1 ∧ resolve d [] 1007 = some 1 ∧
+      resolveOld d [] 2 = some 2 := by decide
 
 /-- rollback by id, exact part: `ROLLBACK TO <id>` of the checkpoint taken at `d0` restores it
-    whenever no listed checkpoint is named with that id string — for every `pre`, `post`, order -/
+    whenever it is still listed — for every `pre`, `post`, order, and whatever the names of the
+    other checkpoints (the proviso "no listed checkpoint is named with that id string" is gone with
+    fff752bd).  `_partial` only for what `rollback_exact_partial` lacks. -/
 theorem rollback_by_id_exact_partial (pre post : List Op) (ts : Nat) (ord : List Nat) (nm : Nat)
     (o : List Nat) (d3 : Db) :
     let d0 := run {} pre
     let d2 := run (step d0 (.ckpt ts ord nm)).1 post
-    (∀ j, alHas d2.st.cps j = true → nameOf d2 j ≠ some d0.nextCk) →
+    alHas d2.st.cps d0.nextCk = true →
     step d2 (.rollback d0.nextCk o) = (d3, .ok) →
       d3.st.md = d0.st.md ∧ d3.st.cache = d0.st.cache ∧ d3.st.rel = [] ∧ kvObs d3 = kvObs d0 ∧
         d3.st.cps = d0.st.cps ∧ WF d3.st := by
-  intro d0 d2 hno hstep
-  obtain ⟨i, hi⟩ := rollback_ok_resolved d2 d0.nextCk o (by rw [hstep])
-  obtain ⟨tsi, hm, hmatch, _⟩ := resolve_some d2 o d0.nextCk i hi
-  have hlive : alHas d2.st.cps i = true := resolve_live d2 o _ i hi
-  have hid : i = d0.nextCk := by
-    unfold ckMatches at hmatch
-    simp only [Bool.or_eq_true, decide_eq_true_eq] at hmatch
-    rcases hmatch with h | h
-    · exact h
-    · exact absurd h (hno i hlive)
-  rw [hid] at hi
-  exact rollback_exact_partial pre post ts ord nm d0.nextCk o d3 hi hstep
+  intro d0 d2 hl hstep
+  have hinv0 : DbInv d0 := DbInv.init.run pre
+  have hinv2 : DbInv d2 := (hinv0.step _).run post
+  exact rollback_exact_partial pre post ts ord nm d0.nextCk o d3 (hinv2.resolve_id o _ hl) hstep
+
+/-- non-vacuity: the checkpoint is shadowed by TWO newer ones named with its id string and still
+    restored by its id; once it is unlisted the same target reaches a checkpoint of that NAME -/
+example :
+    let pre : List Op := [.kput 0 0 1 none]
+    let post : List Op := [.kput 0 0 2 none, .ckpt 6 [] 0, .kput 0 0 3 none, .ckpt 7 [] 0]
+    let d0 := run {} pre
+    let d2 := run (step d0 (.ckpt 5 [] 1000)).1 post
+    d0.nextCk = 0 ∧ alHas d2.st.cps 0 = true ∧ (step d2 (.rollback 0 [])).2 = .ok ∧
+    qRaw (step d2 (.rollback 0 [])).1 = [(.plain 0, .raw (some 1) none)] ∧
+    (loadCk (step d2 (.ckdel 1000 [])).1 [] 0).map (·.id) = some 2 := by decide
 
 /-- rollback by name, exact part: `ROLLBACK TO <name>` restores the checkpoint taken at `d0` under
-    that name whenever it is still listed and every other listed checkpoint whose id or name is
-    that string is strictly older — whatever the listing order -/
+    that name whenever it is still listed, no OTHER listed checkpoint has that string as its id
+    (an id match wins over every name match), and every other listed checkpoint of that name is
+    strictly older — whatever the listing order -/
 theorem rollback_by_name_exact_partial (pre post : List Op) (ts : Nat) (ord : List Nat) (nm : Nat)
     (o : List Nat) (d3 : Db) :
     let d0 := run {} pre
     let d2 := run (step d0 (.ckpt ts ord nm)).1 post
     alHas d2.st.cps d0.nextCk = true →
     (∀ j c', alHas d2.st.cps j = true → blobOf d2 j = some c' → j ≠ d0.nextCk →
-      (j = nm ∨ c'.name = nm) → c'.ts < ts) →
+      j ≠ nm ∧ (c'.name = nm → c'.ts < ts)) →
     step d2 (.rollback nm o) = (d3, .ok) →
       d3.st.md = d0.st.md ∧ d3.st.cache = d0.st.cache ∧ d3.st.rel = [] ∧ kvObs d3 = kvObs d0 ∧
         d3.st.cps = d0.st.cps ∧ WF d3.st := by
@@ -327,12 +374,20 @@ theorem rollback_by_name_exact_partial (pre post : List Op) (ts : Nat) (ord : Li
   have hmem := hinv2.live_mem d0.nextCk hlive _ hb
   have hr : resolve d2 o nm = some d0.nextCk := by
     apply resolve_eq_of_newest d2 o nm d0.nextCk ts hinv2.cpsNodup hmem
-    · exact (ckMatches_iff d2 nm d0.nextCk ts _ hb).mpr (Or.inr rfl)
-    · intro b hbm hmatch hne
+    · right; unfold nameOf; rw [hb]; rfl
+    · intro b hbm hbx
+      have hbl : alHas d2.st.cps b.1 = true := (alHas_iff _ _).mpr (List.mem_map_of_mem hbm)
+      obtain ⟨c', hc', _⟩ := hinv2.blobOf_some b.1 (hinv2.cpsLt b.1 hbl)
+      cases Nat.decEq b.1 d0.nextCk with
+      | isTrue e => exact e
+      | isFalse hne => exact absurd hbx (hnew b.1 c' hbl hc' hne).1
+    · intro b hbm hname hne
       have hbl : alHas d2.st.cps b.1 = true := (alHas_iff _ _).mpr (List.mem_map_of_mem hbm)
       obtain ⟨c', hc', hci⟩ := hinv2.blobOf_some b.1 (hinv2.cpsLt b.1 hbl)
       have hts := hinv2.cpsTs b hbm c' (blobOf_mem d2 b.1 c' hc').1 hci
-      have := hnew b.1 c' hbl hc' hne ((ckMatches_iff d2 nm b.1 b.2 c' hc').mp hmatch)
+      have hcn : c'.name = nm := by
+        unfold nameOf at hname; rw [hc'] at hname; simpa using hname
+      have := (hnew b.1 c' hbl hc' hne).2 hcn
       omega
   exact rollback_exact_partial pre post ts ord nm nm o d3 hr hstep
 
@@ -343,6 +398,47 @@ example :
     let d2 := run (step d0 (.ckpt 8 [] 1007)).1 post
     d0.nextCk = 1 ∧ alHas d2.st.cps 1 = true ∧ (step d2 (.rollback 1007 [])).2 = .ok ∧
     (step d2 (.rollback 1 [])).2 = .ok ∧ qCkpts d2 = [0, 1, 2] := by decide
+
+/-- known finding tensor_store.restore_from_bytes/dense_embedding_perturbed, its mechanism: the
+    snapshot carries the embedding-slab copy of a vector through the per-vector codec
+    (`Store.snapshotWith cz`) while the metadata slab of the very same image keeps the `_embedding`
+    field exactly; `restore` re-puts what `get` answers on the image, and `get` prefers the slab
+    copy.  With a codec that does not return the vector exactly (here: rounding down to a multiple
+    of 4, standing for tensor-train compression of a dense non-constant 384-dim vector) the value
+    written before the checkpoint (`_embedding` 7) comes back as the codec's (4), although the image
+    holds the exact one. -/
+theorem dense_embedding_perturbed_witness :
+    let s := Store.empty.put (.emb 5) (.raw (some 1) (some 7))
+    let img := s.snapshotWith fun e => e - e % 4
+    s.get (.emb 5) = some (.raw (some 1) (some 7)) ∧
+    alGet img.md (.emb 5) = some (.raw (some 1) (some 7)) ∧
+    (Store.restoreFrom img (s.del (.emb 5))).get (.emb 5) = some (.raw (some 1) (some 4)) ∧
+    (Store.restoreFrom s.snapshot (s.del (.emb 5))).get (.emb 5) = some (.raw (some 1) (some 7)) := by
+  decide
+
+/-- … and the exact scope of the model's `snapshot` (= the identity codec): for EVERY store and
+    EVERY codec that returns each vector stored in the embedding slab exactly, the image is the one
+    the model uses, so every theorem above speaks about it.  The model's vectors (integers,
+    constant `_embedding`s) are such vectors for the real codec (checked by the correspondence
+    run); dense non-constant ones of dimension ≥ 256 are not (the directed harness case). -/
+theorem snapshot_codec_exact_on_stored_vectors (cz : Int → Int) (s : Store) :
+    (∀ p ∈ s.eslab, cz p.2 = p.2) → s.snapshotWith cz = s.snapshot := by
+  intro h
+  unfold Store.snapshotWith Store.snapshot
+  have : s.eslab.map (fun p => (p.1, cz p.2)) = s.eslab := by
+    have hm : ∀ l : List (Nat × Int), (∀ p ∈ l, cz p.2 = p.2) → l.map (fun p => (p.1, cz p.2)) = l := by
+      intro l
+      induction l with
+      | nil => intro _; rfl
+      | cons y ys ih =>
+        intro hl
+        rw [List.map_cons, hl y List.mem_cons_self, ih fun p hp => hl p (List.mem_cons_of_mem _ hp)]
+    exact hm _ h
+  rw [this]
+
+example :
+    let s := (Store.empty.put (.emb 5) (.raw (some 1) (some 8))).put (.emb 6) (.raw none (some (-4)))
+    s.eslab = [(0, 8), (1, -4)] ∧ ∀ p ∈ s.eslab, (fun e : Int => e - e % 4) p.2 = p.2 := by decide
 
 /-- a `ROLLBACK TO x` that is not accepted (nothing listed under that id or name) changes nothing:
     for every database and target the whole state — store, engines, archive — is as before -/
@@ -359,27 +455,41 @@ example :
     (step (run {} ops) (.rollback 0 [])).2 = .err .notFound ∧
     (step (run {} ops) (.rollback 1000 [])).2 = .err .notFound := by decide
 
-/-- `CheckpointManager::delete(x)`: when accepted it unlists exactly the checkpoint `x` resolves to
-    (the newest listed one whose id or name is `x`); the database content, every other listed
-    checkpoint and the archive are untouched — so by `retained_are_restorable` (whose statement
-    sequences include deletes) every checkpoint still listed can still be rolled back to -/
+/-- `CheckpointManager::delete(x)` (its own one-pass lookup, `resolveOld`): when accepted it unlists
+    exactly ONE checkpoint — a listed one whose id or name is `x`, at least as new as every listed
+    one whose id or name is `x`; the database content, every other listed checkpoint and the
+    archive are untouched — so by `retained_are_restorable` (whose statement sequences include
+    deletes) every checkpoint still listed can still be rolled back to -/
 theorem ckdel_removes_exactly_the_target (ops : List Op) (x : Nat) (o : List Nat) (d' : Db) :
     step (run {} ops) (.ckdel x o) = (d', .ok) →
-      ∃ i, resolve (run {} ops) o x = some i ∧ alHas (run {} ops).st.cps i = true ∧
+      ∃ i, resolveOld (run {} ops) o x = some i ∧ alHas (run {} ops).st.cps i = true ∧
+        (i = x ∨ nameOf (run {} ops) i = some x) ∧
+        (∀ j c c', blobOf (run {} ops) i = some c → alHas (run {} ops).st.cps j = true →
+          blobOf (run {} ops) j = some c' → (j = x ∨ c'.name = x) → c'.ts ≤ c.ts) ∧
         alHas d'.st.cps i = false ∧
         (∀ j, j ≠ i → alHas d'.st.cps j = alHas (run {} ops).st.cps j) ∧
         d'.st.md = (run {} ops).st.md ∧ d'.st.cache = (run {} ops).st.cache ∧
         d'.st.rel = (run {} ops).st.rel ∧ d'.eng = (run {} ops).eng ∧ d'.arch = (run {} ops).arch := by
   intro hstep
+  have hinv : DbInv (run {} ops) := DbInv.init.run ops
   simp only [step, doCkDel] at hstep
-  cases hr : resolve (run {} ops) o x with
+  cases hr : resolveOld (run {} ops) o x with
   | none => rw [hr] at hstep; exact absurd (congrArg Prod.snd hstep) (by simp)
   | some i =>
     rw [hr] at hstep
     have hd := (congrArg Prod.fst hstep).symm
     simp only at hd
     subst hd
-    refine ⟨i, rfl, resolve_live _ o x i hr, ?_, ?_, rfl, rfl, rfl, rfl, rfl⟩
+    obtain ⟨ts, hm, hmatch, hnew⟩ := resolveOld_some _ o x i hr
+    refine ⟨i, rfl, resolveOld_live _ o x i hr, ?_, ?_, ?_, ?_, rfl, rfl, rfl, rfl, rfl⟩
+    · simpa [ckMatches] using hmatch
+    · intro j c c' hb hj hb' hx
+      have hts : ts = c.ts := (hinv.cpsTs _ hm c (blobOf_mem _ _ c hb).1 (blobOf_mem _ _ c hb).2).symm
+      have hmem := hinv.live_mem j hj c' hb'
+      have := hnew (j, c'.ts) (mem_ckList o _ hinv.cpsNodup _ hmem)
+        ((ckMatches_iff _ x j c'.ts c' hb').mpr hx)
+      simp only at this
+      omega
     · show alHas (alDel (run {} ops).st.cps i) i = false
       cases h : alHas (alDel (run {} ops).st.cps i) i with
       | false => rfl
@@ -398,6 +508,15 @@ example :
     (step (run {} ops) (.ckdel 1007 [])).2 = .ok ∧ qCkpts (step (run {} ops) (.ckdel 1007 [])).1 = [0, 2] ∧
     (step (run {} ops) (.ckdel 1 [])).2 = .ok ∧ (step (run {} ops) (.ckdel 9 [])).2 = .err .notFound := by
   decide
+
+/-- the delete path was NOT repaired by fff752bd (`CheckpointManager::delete` does not call
+    `find_by_id_or_name`): `delete(<id of c0>)` unlists the newer checkpoint c1 that is NAMED with
+    c0's id string, c0 stays listed — while `ROLLBACK TO <id of c0>` reaches c0.  Manual deletes
+    are outside the property's quantifier; recorded by the harness as an observation. -/
+theorem ckdel_id_shadowed_by_name_witness :
+    let d := run {} [.kput 0 0 1 none, .ckpt 5 [] 1000, .kput 0 0 2 none, .ckpt 6 [] 0, .kput 0 0 3 none]
+    qCkpts d = [0, 1] ∧ (step d (.ckdel 0 [])).2 = .ok ∧ qCkpts (step d (.ckdel 0 [])).1 = [0] ∧
+      resolve d [] 0 = some 0 := by decide
 
 /-- `CheckpointManager::list(Some n)` / `CHECKPOINTS LIMIT n`: for every database, order and limit
     the answer has `min n (listed)` entries, all listed, newest first, and nothing left out is
